@@ -1,5 +1,1200 @@
-//! (stub; being written)
+//! C20: a name used in a script compiles to the id its target has in the output file.
+//!
+//! Bounded exhaustive enumeration of file LAYOUTS (E-DFS over choice vectors, no randomness).  Every
+//! layout is rendered to source text, compiled by the real compiler (in process), and the WRITTEN FILE
+//! is parsed with the independent M2 walkers.  Reference model M9 (this file, written from the rule
+//! in the property; it never asks truth for an expectation):
+//!   * sprite id  = explicit `id` (a constant expression) else previous sprite's id + 1, continuing
+//!                  across entries, starting at 0;
+//!   * ANM script reference = position of the script in file order (over all entries);
+//!   * old-ECL sub reference = position of the `void sub()` item in file order;
+//!   * timeline slot = explicit index, else the number of earlier implicitly numbered timelines;
+//!   * MSG table entry = file offset of the named script (identified by CONTENT: unique marker);
+//!   * STD instance = index of the named object.
+//! One name with two values, a dangling name, a cyclic id definition or an invalid timeline index set
+//! must be rejected with an error diagnostic; layouts M9 considers legal must compile.
 #![allow(dead_code)]
-use crate::common::Report;
-pub fn run(tier: &str) -> Report { Report::new("C20", tier, "model_checking") }
-pub fn replay(_detail: &serde_json::Value) -> i32 { 2 }
+
+use std::collections::{BTreeMap, BTreeSet, HashSet};
+use std::hash::{Hash, Hasher};
+
+use serde_json::{json, Value};
+use truth::Game;
+
+use crate::common::*;
+use crate::drive::{self, CompileOpts, Kind, Tool};
+use crate::m2;
+
+// =============================================================================================
+// shared types
+
+fn gm(s: &str) -> Game { s.parse::<Game>().expect("game") }
+
+#[derive(Debug, Clone, PartialEq)]
+enum Verdict {
+    Legal,
+    /// (class, kind): class in {dangling, conflict, cycle, invalid}; signature `C20:<class>-accepted:<kind>`
+    Error(&'static str, String),
+    /// the property and the repository's tests/docs are silent: only "no panic" is required
+    Unspecified(String),
+}
+
+#[derive(Debug, Clone)]
+struct Mismatch { sig: String, msg: String }
+
+trait Layout {
+    fn fam(&self) -> &'static str;
+    fn tool(&self) -> Tool;
+    fn mapfile(&self) -> Option<String>;
+    fn render(&self) -> String;
+    fn verdict(&self) -> Verdict;
+    fn nontrivial(&self) -> bool;
+    /// short description of the layout class (used in the `legal-rejected` signature)
+    fn class(&self) -> String;
+    /// compare the written file with M9; returns (#comparisons, mismatches) or a walker error
+    fn check(&self, bytes: &[u8], corrupt: bool) -> Result<(u64, Vec<Mismatch>), String>;
+    /// M9's expectations, human readable (for replay / detail)
+    fn describe(&self) -> Value;
+}
+
+#[derive(Debug, Clone)]
+struct Job { fam: &'static str, game: Game, prof: Vec<u32>, choices: Vec<u32> }
+
+fn build(job: &Job) -> Box<dyn Layout> {
+    let mut ch = Chooser::new(&job.choices);
+    match job.fam {
+        "anm" => Box::new(gen_anm(&mut ch, job.game, &job.prof)),
+        "msg" => Box::new(gen_msg(&mut ch, job.game, &job.prof)),
+        "ecl" => Box::new(gen_ecl(&mut ch, job.game, &job.prof)),
+        "std" => Box::new(gen_std(&mut ch, job.game, &job.prof)),
+        f => panic!("unknown family {f}"),
+    }
+}
+
+fn dwords(b: &[u8]) -> Vec<u32> { b.chunks(4).filter(|c| c.len() == 4).map(|c| u32::from_le_bytes([c[0], c[1], c[2], c[3]])).collect() }
+
+struct Cmp { n: u64, mism: Vec<Mismatch> }
+impl Cmp {
+    fn new() -> Cmp { Cmp { n: 0, mism: vec![] } }
+    fn eq<T: PartialEq + std::fmt::Debug>(&mut self, sig: impl FnOnce() -> String, what: impl FnOnce() -> String, observed: T, expected: T) -> bool {
+        self.n += 1;
+        if observed != expected {
+            if self.mism.len() < 16 { self.mism.push(Mismatch { sig: sig(), msg: format!("{}: observed {:?}, M9 expects {:?}", what(), observed, expected) }); }
+            false
+        } else { true }
+    }
+    fn fail(&mut self, sig: String, msg: String) { self.n += 1; if self.mism.len() < 16 { self.mism.push(Mismatch { sig, msg }); } }
+}
+
+/// Instructions of one script split at separator instructions: returns, per separator ordinal, the
+/// LAST instruction of that segment (the use site proper; call sugar may emit helpers before it).
+fn segments<'a>(instrs: &'a [m2::Instr], is_sep: impl Fn(&m2::Instr) -> Option<u32>) -> BTreeMap<u32, &'a m2::Instr> {
+    let mut out = BTreeMap::new();
+    let mut cur: Option<u32> = None;
+    for i in instrs {
+        if let Some(k) = is_sep(i) { cur = Some(k); continue; }
+        if let Some(k) = cur { out.insert(k, i); }
+    }
+    out
+}
+
+fn permutation(n: usize, mut k: usize) -> Vec<usize> {
+    // k-th permutation of 0..n in lexicographic order (k = 0 is the identity)
+    let mut items: Vec<usize> = (0..n).collect();
+    let mut fact: Vec<usize> = vec![1; n + 1];
+    for i in 1..=n { fact[i] = fact[i - 1] * i; }
+    let mut out = vec![];
+    for i in (0..n).rev() {
+        let f = fact[i];
+        out.push(items.remove(k / f));
+        k %= f;
+    }
+    out
+}
+fn factorial(n: usize) -> usize { (1..=n).product::<usize>().max(1) }
+
+// =============================================================================================
+// ANM
+
+const F_SHAPE: u32 = 1;
+const F_IDS: u32 = 2;
+const F_NAMES: u32 = 4;
+const F_SCRIPTS: u32 = 8;
+const F_USES: u32 = 16;
+
+#[derive(Debug, Clone, PartialEq)]
+enum IdSpec { Implicit, Lit(i64), Base(i64), Arith(i64, i64), Rel(String, i64) }
+
+#[derive(Debug, Clone)]
+struct SpriteL { name: String, spec: IdSpec, pat: &'static str, marker: u32 }
+
+#[derive(Debug, Clone, Copy, PartialEq, Eq)]
+enum AnmUse { ArgSprite, ArgScript, ArgUntyped, Plus1Sprite, Plus1Script, Multi, QualSprite, QualScript, ConstTop, ConstBottom, ConstLocal, RealSprite, RealScript }
+const ANM_USE_KINDS: [AnmUse; 13] = [AnmUse::ArgSprite, AnmUse::ArgScript, AnmUse::ArgUntyped, AnmUse::Plus1Sprite, AnmUse::Plus1Script, AnmUse::Multi,
+    AnmUse::QualSprite, AnmUse::QualScript, AnmUse::ConstTop, AnmUse::ConstBottom, AnmUse::ConstLocal, AnmUse::RealSprite, AnmUse::RealScript];
+
+#[derive(Debug, Clone)]
+struct AnmUseL { kind: AnmUse, name: String, uid: u32 }
+
+#[derive(Debug, Clone)]
+struct AnmScriptL { name: String, number: Option<i32>, marker: u32, uses: Vec<AnmUseL> }
+
+#[derive(Debug, Clone)]
+struct AnmEntryL { sprites: Vec<SpriteL>, scripts: Vec<AnmScriptL> }
+
+#[derive(Debug, Clone)]
+struct AnmLayout { game: Game, entries: Vec<AnmEntryL> }
+
+#[derive(Debug, Clone, PartialEq)]
+enum IdErr { Cycle, Dangling(String), Ambiguous(String) }
+
+#[derive(Debug, Clone, Copy, PartialEq)]
+enum Ctx { Sprite, Script, Untyped, QualSprite, QualScript }
+
+fn gen_anm(ch: &mut Chooser, game: Game, prof: &[u32]) -> AnmLayout {
+    let free = prof[0];
+    let (max_e, max_spe, max_tot, max_scr) = (prof[1] as usize, prof[2] as usize, prof[3] as usize, prof[4] as usize);
+    let c = |f: u32| if free & f != 0 { 0 } else { 1 };
+    let ne = 1 + ch.pick_w(max_e, c(F_SHAPE));
+    let mut nspr = vec![];
+    let mut tot = 0usize;
+    for _ in 0..ne {
+        let avail: Vec<usize> = [1usize, 0, 2, 3].iter().copied().filter(|&k| k <= max_spe && tot + k <= max_tot).collect();
+        let k = avail[ch.pick_w(avail.len(), c(F_SHAPE))];
+        nspr.push(k); tot += k;
+    }
+    let mut nscr = vec![];
+    let mut tots = 0usize;
+    for e in 0..ne {
+        let order: [usize; 3] = if e == ne - 1 { [1, 0, 2] } else { [0, 1, 2] };
+        let avail: Vec<usize> = order.iter().copied().filter(|&k| tots + k <= max_scr).collect();
+        let k = avail[ch.pick_w(avail.len(), c(F_SHAPE))];
+        nscr.push(k); tots += k;
+    }
+    if tots == 0 { nscr[ne - 1] = 1; tots = 1; }
+
+    // sprite names
+    let mut snames: Vec<String> = vec![];
+    for k in 0..tot {
+        let mut alts = vec![format!("spr{k}")];
+        for j in 0..k.min(3) { alts.push(snames[j].clone()); }
+        alts.push("scr0".to_string());
+        let a = ch.pick_w(alts.len(), c(F_NAMES));
+        snames.push(alts[a].clone());
+    }
+    // sprite id specs
+    let mut specs: Vec<(IdSpec, &'static str)> = vec![];
+    let mut cur: i64 = -1; // generation-time guess of the previous sprite's id (only steers literal values)
+    let mut first_guess: i64 = 0;
+    for k in 0..tot {
+        let p = ch.pick_w(9, c(F_IDS));
+        let (spec, pat, guess) = match p {
+            0 => (IdSpec::Implicit, "implicit", cur + 1),
+            1 => (IdSpec::Lit(cur + 1), "explicit-same-as-auto", cur + 1),
+            2 => (IdSpec::Lit(cur + 4), "explicit-gap", cur + 4),
+            3 => { let v = (cur - 2).max(0); (IdSpec::Lit(v), "explicit-decreasing", v) },
+            4 => { let v = if k == 0 { 5 } else { first_guess }; (IdSpec::Lit(v), if k == 0 { "explicit-first" } else { "duplicate-id" }, v) },
+            5 => (IdSpec::Base(k as i64), "const-expr", 10 + k as i64),
+            6 => (IdSpec::Arith(k as i64 + 2, -1), "arith-expr", (k as i64 + 2) * 3 - 1),
+            7 => (IdSpec::Rel(snames[0].clone(), 2), "rel-first", first_guess + 2),
+            _ => (IdSpec::Rel(snames[tot - 1].clone(), -1), "rel-last", cur + 1),
+        };
+        if k == 0 { first_guess = guess; }
+        cur = guess;
+        specs.push((spec, pat));
+    }
+    // scripts
+    let mut scripts: Vec<AnmScriptL> = vec![];
+    for q in 0..tots {
+        let mut alts = vec![format!("scr{q}")];
+        if q > 0 { alts.push(scripts[0].name.clone()); }
+        if tot > 0 { alts.push(snames[0].clone()); }
+        let a = ch.pick_w(alts.len(), c(F_SCRIPTS));
+        let number = [None, Some(7), Some(1), Some(-3)][ch.pick_w(4, c(F_SCRIPTS))];
+        scripts.push(AnmScriptL { name: alts[a].clone(), number, marker: 0x5c00 + q as u32, uses: vec![] });
+    }
+    // uses
+    let mut sprite_names: Vec<String> = vec![];
+    for n in &snames { if !sprite_names.contains(n) { sprite_names.push(n.clone()); } }
+    let mut script_names: Vec<String> = vec![];
+    for s in &scripts { if !script_names.contains(&s.name) { script_names.push(s.name.clone()); } }
+    let mut uid = 0u32;
+    let host1 = ch.pick_w(tots, c(F_USES));
+    for n in &sprite_names { scripts[host1].uses.push(AnmUseL { kind: AnmUse::ArgSprite, name: n.clone(), uid }); uid += 1; }
+    for n in &script_names { scripts[host1].uses.push(AnmUseL { kind: AnmUse::ArgScript, name: n.clone(), uid }); uid += 1; }
+    let k = ch.pick_w(1 + ANM_USE_KINDS.len(), c(F_USES));
+    if k > 0 {
+        let mut targets: Vec<String> = sprite_names.clone();
+        for n in &script_names { if !targets.contains(n) { targets.push(n.clone()); } }
+        targets.push("nosuch".to_string());
+        let t = ch.pick_w(targets.len(), c(F_USES));
+        let host2 = ch.pick_w(tots, c(F_USES));
+        scripts[host2].uses.push(AnmUseL { kind: ANM_USE_KINDS[k - 1], name: targets[t].clone(), uid });
+    }
+    // assemble
+    let mut entries = vec![];
+    let (mut si, mut qi) = (0usize, 0usize);
+    for e in 0..ne {
+        let mut ent = AnmEntryL { sprites: vec![], scripts: vec![] };
+        for _ in 0..nspr[e] {
+            ent.sprites.push(SpriteL { name: snames[si].clone(), spec: specs[si].0.clone(), pat: specs[si].1, marker: 3 + si as u32 });
+            si += 1;
+        }
+        for _ in 0..nscr[e] { ent.scripts.push(scripts[qi].clone()); qi += 1; }
+        entries.push(ent);
+    }
+    AnmLayout { game, entries }
+}
+
+struct AnmOps { mark: u16, sep: u16, n: u16, nn: u16, snn: u16, s: u16, real_n: u16, real_nn: Option<u16> }
+
+impl AnmLayout {
+    fn ops(&self) -> AnmOps {
+        let b: u16 = if self.game >= Game::Th13 { 700 } else { 120 };
+        let real_n = if self.game == Game::Th06 { 1 } else if self.game >= Game::Th13 { 300 } else { 3 };
+        let real_nn = if self.game >= Game::Th13 { Some(500) } else if self.game >= Game::Th10 { Some(88) } else { None };
+        AnmOps { mark: b, sep: b + 1, n: b + 2, nn: b + 3, snn: b + 4, s: b + 5, real_n, real_nn }
+    }
+    fn sprite_defs(&self) -> Vec<(usize, usize, &SpriteL)> {
+        self.entries.iter().enumerate().flat_map(|(e, ent)| ent.sprites.iter().enumerate().map(move |(j, s)| (e, j, s))).collect()
+    }
+    fn script_defs(&self) -> Vec<(usize, &AnmScriptL)> {
+        self.entries.iter().enumerate().flat_map(|(e, ent)| ent.scripts.iter().map(move |s| (e, s))).collect()
+    }
+    // ---- M9 ----
+    fn eval_id(&self, i: usize, defs: &[(usize, usize, &SpriteL)], stack: &mut Vec<usize>, memo: &mut Vec<Option<Result<i64, IdErr>>>) -> Result<i64, IdErr> {
+        if let Some(r) = &memo[i] { return r.clone(); }
+        if stack.contains(&i) { return Err(IdErr::Cycle); }
+        stack.push(i);
+        let r = match &defs[i].2.spec {
+            IdSpec::Implicit => if i == 0 { Ok(0) } else { self.eval_id(i - 1, defs, stack, memo).map(|v| v + 1) },
+            IdSpec::Lit(v) => Ok(*v),
+            IdSpec::Base(k) => Ok(10 + k),
+            IdSpec::Arith(a, b) => Ok(a * 3 + b),
+            IdSpec::Rel(name, k) => self.resolve(Ctx::Untyped, name, defs, stack, memo).map(|v| v + k),
+        };
+        stack.pop();
+        // (a Cycle result is only memoised at the root of the evaluation: members of the cycle all fail anyway)
+        if stack.is_empty() || !matches!(r, Err(IdErr::Cycle)) { memo[i] = Some(r.clone()); }
+        r
+    }
+    fn resolve(&self, ctx: Ctx, name: &str, defs: &[(usize, usize, &SpriteL)], stack: &mut Vec<usize>, memo: &mut Vec<Option<Result<i64, IdErr>>>) -> Result<i64, IdErr> {
+        let sprite = defs.iter().position(|d| d.2.name == name);
+        let script = self.script_defs().iter().position(|d| d.1.name == name);
+        let mut spr = |s: &Self, stack: &mut Vec<usize>, memo: &mut Vec<Option<Result<i64, IdErr>>>| s.eval_id(sprite.unwrap(), defs, stack, memo);
+        match (ctx, sprite.is_some(), script) {
+            (Ctx::QualSprite, true, _) => spr(self, stack, memo),
+            (Ctx::QualSprite, false, _) => Err(IdErr::Dangling(name.into())),
+            (Ctx::QualScript, _, Some(p)) => Ok(p as i64),
+            (Ctx::QualScript, _, None) => Err(IdErr::Dangling(name.into())),
+            (_, false, None) => Err(IdErr::Dangling(name.into())),
+            (Ctx::Sprite, true, _) => spr(self, stack, memo),
+            (Ctx::Sprite, false, Some(p)) => Ok(p as i64),
+            (Ctx::Script, _, Some(p)) => Ok(p as i64),
+            (Ctx::Script, true, None) => spr(self, stack, memo),
+            (Ctx::Untyped, true, Some(_)) => Err(IdErr::Ambiguous(name.into())),
+            (Ctx::Untyped, true, None) => spr(self, stack, memo),
+            (Ctx::Untyped, false, Some(p)) => Ok(p as i64),
+        }
+    }
+    fn ids(&self) -> Vec<Result<i64, IdErr>> {
+        let defs = self.sprite_defs();
+        let mut memo = vec![None; defs.len()];
+        (0..defs.len()).map(|i| { let mut st = vec![]; self.eval_id(i, &defs, &mut st, &mut memo) }).collect()
+    }
+    /// expected (dword index, value) list of one use
+    fn use_expect(&self, u: &AnmUseL) -> Vec<(usize, Result<i64, IdErr>)> {
+        let defs = self.sprite_defs();
+        let mut memo = vec![None; defs.len()];
+        let mut r = |ctx: Ctx| { let mut st = vec![]; self.resolve(ctx, &u.name, &defs, &mut st, &mut memo) };
+        match u.kind {
+            AnmUse::ArgSprite | AnmUse::RealSprite => vec![(0, r(Ctx::Sprite))],
+            AnmUse::ArgScript | AnmUse::RealScript => vec![(0, r(Ctx::Script))],
+            AnmUse::ArgUntyped | AnmUse::ConstTop | AnmUse::ConstBottom | AnmUse::ConstLocal => vec![(0, r(Ctx::Untyped))],
+            AnmUse::Plus1Sprite => vec![(0, r(Ctx::Sprite).map(|v| v + 1))],
+            AnmUse::Plus1Script => vec![(0, r(Ctx::Script).map(|v| v + 1))],
+            AnmUse::Multi => vec![(0, Ok(7)), (1, r(Ctx::Sprite)), (2, r(Ctx::Script))],
+            AnmUse::QualSprite => vec![(0, r(Ctx::QualSprite))],
+            AnmUse::QualScript => vec![(0, r(Ctx::QualScript))],
+        }
+    }
+    fn use_text(&self, u: &AnmUseL) -> (String, String) {
+        // (statement(s) inside the script, opcode used)
+        let o = self.ops();
+        let n = &u.name;
+        match u.kind {
+            AnmUse::ArgSprite => (format!("ins_{}({n});", o.n), String::new()),
+            AnmUse::ArgScript => (format!("ins_{}({n});", o.nn), String::new()),
+            AnmUse::ArgUntyped => (format!("ins_{}({n});", o.s), String::new()),
+            AnmUse::Plus1Sprite => (format!("ins_{}({n} + 1);", o.n), String::new()),
+            AnmUse::Plus1Script => (format!("ins_{}({n} + 1);", o.nn), String::new()),
+            AnmUse::Multi => (format!("ins_{}(7, {n}, {n});", o.snn), String::new()),
+            AnmUse::QualSprite => (format!("ins_{}(AnmSprite.{n});", o.s), String::new()),
+            AnmUse::QualScript => (format!("ins_{}(AnmScript.{n});", o.s), String::new()),
+            AnmUse::ConstTop => (format!("ins_{}(KT{});", o.s, u.uid), String::new()),
+            AnmUse::ConstBottom => (format!("ins_{}(KB{});", o.s, u.uid), String::new()),
+            AnmUse::ConstLocal => (format!("const int KL{} = {n}; ins_{}(KL{});", u.uid, o.s, u.uid), String::new()),
+            AnmUse::RealSprite => (format!("ins_{}({n});", o.real_n), String::new()),
+            AnmUse::RealScript => (format!("ins_{}({n});", o.real_nn.unwrap_or(o.nn)), String::new()),
+        }
+    }
+    fn all_uses(&self) -> Vec<&AnmUseL> { self.entries.iter().flat_map(|e| e.scripts.iter()).flat_map(|s| s.uses.iter()).collect() }
+}
+
+fn id_text(spec: &IdSpec) -> String {
+    match spec {
+        IdSpec::Implicit => String::new(),
+        IdSpec::Lit(v) => format!(", id: {v}"),
+        IdSpec::Base(k) => format!(", id: base + {k}"),
+        IdSpec::Arith(a, b) => format!(", id: {a} * 3 - {}", -b),
+        IdSpec::Rel(n, k) => if *k >= 0 { format!(", id: {n} + {k}") } else { format!(", id: {n} - {}", -k) },
+    }
+}
+
+impl Layout for AnmLayout {
+    fn fam(&self) -> &'static str { "anm" }
+    fn tool(&self) -> Tool { Tool::new(Kind::Anm, self.game) }
+    fn mapfile(&self) -> Option<String> {
+        let o = self.ops();
+        Some(format!("!anmmap\n!ins_signatures\n{} S\n{} S\n{} n\n{} N\n{} SnN\n{} S\n", o.mark, o.sep, o.n, o.nn, o.snn, o.s))
+    }
+    fn render(&self) -> String {
+        let o = self.ops();
+        let mut s = String::new();
+        for u in self.all_uses() { if u.kind == AnmUse::ConstTop { s += &format!("const int KT{} = {};\n", u.uid, u.name); } }
+        for (ei, e) in self.entries.iter().enumerate() {
+            s += &format!("entry {{\n    path: \"e{ei}.png\", has_data: false, img_width: 8, img_height: 8, img_format: 3, memory_priority: 0,\n    sprites: {{\n");
+            for sp in &e.sprites { s += &format!("        {}: {{x: {}.0, y: 0.0, w: 1.0, h: 1.0{}}},\n", sp.name, sp.marker, id_text(&sp.spec)); }
+            s += "    },\n}\n";
+            for sc in &e.scripts {
+                let num = sc.number.map(|n| format!("{n} ")).unwrap_or_default();
+                s += &format!("script {num}{} {{\n    ins_{}({});\n", sc.name, o.mark, sc.marker);
+                for u in &sc.uses { s += &format!("    ins_{}({});\n    {}\n", o.sep, u.uid, self.use_text(u).0); }
+                s += "}\n";
+            }
+        }
+        s += "const int base = 10;\n";
+        for u in self.all_uses() { if u.kind == AnmUse::ConstBottom { s += &format!("const int KB{} = {};\n", u.uid, u.name); } }
+        s
+    }
+    fn verdict(&self) -> Verdict {
+        let defs = self.sprite_defs();
+        let ids = self.ids();
+        let mut errors: Vec<(&'static str, String)> = vec![];
+        let mut unspec: Vec<String> = vec![];
+        for r in &ids {
+            match r {
+                Err(IdErr::Cycle) => errors.push(("cycle", "anm-sprite-id".into())),
+                Err(IdErr::Dangling(_)) => errors.push(("dangling", "anm-sprite-id-expr".into())),
+                Err(IdErr::Ambiguous(_)) => unspec.push("ambiguous-name-in-untyped-context".into()),
+                Ok(v) if *v < 0 => unspec.push("negative-sprite-id".into()),
+                Ok(_) => {},
+            }
+        }
+        for (i, a) in defs.iter().enumerate() {
+            for (j, b) in defs.iter().enumerate().skip(i + 1) {
+                if a.2.name != b.2.name { continue; }
+                let differ = match (&ids[i], &ids[j]) { (Ok(x), Ok(y)) => Some(x != y), _ => None };
+                match differ {
+                    Some(true) => errors.push(("conflict", if a.0 == b.0 { "anm-sprite-name-same-entry".into() } else { "anm-sprite-name".into() })),
+                    Some(false) => if a.0 == b.0 { unspec.push("same-sprite-name-twice-in-one-entry".into()) },
+                    None => {},
+                }
+            }
+        }
+        let scripts = self.script_defs();
+        for (i, a) in scripts.iter().enumerate() {
+            if scripts.iter().skip(i + 1).any(|b| b.1.name == a.1.name) { errors.push(("conflict", "anm-script-name".into())); }
+        }
+        for u in self.all_uses() {
+            for (_, r) in self.use_expect(u) {
+                match r {
+                    Err(IdErr::Dangling(_)) => errors.push(("dangling", format!("anm-{:?}", u.kind))),
+                    Err(IdErr::Ambiguous(_)) => unspec.push("ambiguous-name-in-untyped-context".into()),
+                    Err(IdErr::Cycle) => errors.push(("cycle", "anm-sprite-id".into())),
+                    Ok(_) => {},
+                }
+            }
+        }
+        if let Some((c, k)) = errors.into_iter().next() { return Verdict::Error(c, k); }
+        if let Some(u) = unspec.into_iter().next() { return Verdict::Unspecified(u); }
+        Verdict::Legal
+    }
+    fn nontrivial(&self) -> bool {
+        let defs = self.sprite_defs();
+        let scripts = self.script_defs();
+        let explicit = defs.iter().any(|d| d.2.spec != IdSpec::Implicit) || scripts.iter().any(|s| s.1.number.is_some());
+        let mut names: Vec<&str> = defs.iter().map(|d| d.2.name.as_str()).chain(scripts.iter().map(|s| s.1.name.as_str())).collect();
+        let total = names.len();
+        names.sort(); names.dedup();
+        (defs.len() >= 2 || scripts.len() >= 2) && (explicit || names.len() < total)
+    }
+    fn class(&self) -> String {
+        let mut pats: Vec<&str> = self.sprite_defs().iter().map(|d| d.2.pat).collect();
+        pats.sort(); pats.dedup();
+        format!("entries={}:{}", self.entries.len(), pats.join("+"))
+    }
+    fn check(&self, bytes: &[u8], corrupt: bool) -> Result<(u64, Vec<Mismatch>), String> {
+        let o = self.ops();
+        let w = m2::walk_anm(bytes, self.game)?;
+        let mut c = Cmp::new();
+        let defs = self.sprite_defs();
+        let mut ids: Vec<i64> = self.ids().into_iter().map(|r| r.unwrap_or(-999)).collect();
+        if corrupt && ids.len() >= 2 { let l = ids.len() - 1; ids[l] += 1; }
+        if !c.eq(|| "C20:anm:entry-count".into(), || "number of entries".into(), w.len(), self.entries.len()) { return Ok((c.n, c.mism)); }
+        let mut file_scripts: Vec<&m2::AnmScript> = vec![];
+        let mut k = 0usize;
+        for (ei, (we, le)) in w.iter().zip(&self.entries).enumerate() {
+            if !c.eq(|| "C20:anm:sprite-count".into(), || format!("entry {ei} sprite count"), we.sprites.len(), le.sprites.len()) { return Ok((c.n, c.mism)); }
+            for (j, (ws, ls)) in we.sprites.iter().zip(&le.sprites).enumerate() {
+                c.eq(|| "C20:anm:sprite-record-order".into(), || format!("entry {ei} sprite {j} ('{}') content marker x", ls.name), ws.x, ls.marker as f32);
+                let later = if ei > 0 { "@later-entry" } else { "" };
+                c.eq(|| format!("C20:anm:sprite-id:{}{later}", ls.pat), || format!("entry {ei} sprite {j} ('{}', {}) id field in the sprite table", ls.name, ls.pat), ws.id as i64, ids[k]);
+                k += 1;
+            }
+            if !c.eq(|| "C20:anm:script-count".into(), || format!("entry {ei} script count"), we.scripts.len(), le.scripts.len()) { return Ok((c.n, c.mism)); }
+            for s in &we.scripts { file_scripts.push(s); }
+        }
+        let lscripts = self.script_defs();
+        for (p, (fs, (_, ls))) in file_scripts.iter().zip(&lscripts).enumerate() {
+            let got = fs.instrs.first().filter(|i| i.opcode == o.mark).map(|i| dwords(&i.args)).and_then(|d| d.first().copied());
+            c.eq(|| "C20:anm:script-order".into(), || format!("script at file position {p} ('{}') content marker", ls.name), got, Some(ls.marker));
+        }
+        // use sites
+        for (p, (fs, (_, ls))) in file_scripts.iter().zip(&lscripts).enumerate() {
+            let segs = segments(&fs.instrs, |i| if i.opcode == o.sep { dwords(&i.args).first().copied() } else { None });
+            for u in &ls.uses {
+                let Some(ins) = segs.get(&u.uid) else { c.fail(format!("C20:anm:use-site-missing:{:?}", u.kind), format!("script {p}: no instruction found for use {} ({:?} {})", u.uid, u.kind, u.name)); continue };
+                let d = dwords(&ins.args);
+                for (idx, exp) in self.use_expect(u) {
+                    let exp = exp.unwrap_or(-999);
+                    let got = d.get(idx).map(|&x| x as i32 as i64);
+                    let ok = c.eq(|| format!("C20:anm:arg:{:?}", u.kind), || format!("script '{}' use {} `{}` argument dword {idx}", ls.name, u.uid, self.use_text(u).0), got, Some(exp));
+                    if !ok { continue; }
+                    // cross-check against the tables of the same file (independent of M9's numbers)
+                    let plus = matches!(u.kind, AnmUse::Plus1Sprite | AnmUse::Plus1Script) as i64;
+                    if u.kind == AnmUse::Multi && idx == 0 { continue; }
+                    let ctx = match (u.kind, idx) {
+                        (AnmUse::ArgSprite | AnmUse::RealSprite | AnmUse::Plus1Sprite, _) | (AnmUse::Multi, 1) => Ctx::Sprite,
+                        (AnmUse::ArgScript | AnmUse::RealScript | AnmUse::Plus1Script, _) | (AnmUse::Multi, _) => Ctx::Script,
+                        (AnmUse::QualSprite, _) => Ctx::QualSprite,
+                        (AnmUse::QualScript, _) => Ctx::QualScript,
+                        _ => Ctx::Untyped,
+                    };
+                    let is_sprite = defs.iter().any(|d| d.2.name == u.name);
+                    let is_script = lscripts.iter().any(|s| s.1.name == u.name);
+                    let as_sprite = match ctx { Ctx::Sprite | Ctx::QualSprite => is_sprite, Ctx::Script | Ctx::QualScript => !is_script, Ctx::Untyped => is_sprite };
+                    let v = got.unwrap() - plus;
+                    if as_sprite {
+                        // every sprite record carrying the marker of a sprite with this name has id == v
+                        let markers: Vec<u32> = defs.iter().filter(|d| d.2.name == u.name).map(|d| d.2.marker).collect();
+                        let recs: Vec<i64> = w.iter().flat_map(|e| e.sprites.iter()).filter(|s| markers.iter().any(|&m| s.x == m as f32)).map(|s| s.id as i64).collect();
+                        if !corrupt { c.eq(|| format!("C20:anm:arg-vs-file-sprite-table:{:?}", u.kind), || format!("id fields of the sprite records named '{}' vs argument {v}", u.name), recs.iter().all(|&r| r == v) && !recs.is_empty(), true); }
+                    } else {
+                        let marker = lscripts.iter().find(|s| s.1.name == u.name).map(|s| s.1.marker);
+                        let got_marker = usize::try_from(v).ok().and_then(|v| file_scripts.get(v)).and_then(|s| s.instrs.first()).and_then(|i| dwords(&i.args).first().copied());
+                        c.eq(|| format!("C20:anm:arg-vs-file-script-order:{:?}", u.kind), || format!("content marker of the script at file position {v} (argument naming '{}')", u.name), got_marker, marker);
+                    }
+                }
+            }
+        }
+        Ok((c.n, c.mism))
+    }
+    fn describe(&self) -> Value {
+        let defs = self.sprite_defs();
+        let ids = self.ids();
+        json!({
+            "sprites": defs.iter().zip(&ids).map(|(d, r)| json!({"entry": d.0, "name": d.2.name, "pattern": d.2.pat, "expected_id": format!("{:?}", r)})).collect::<Vec<_>>(),
+            "scripts": self.script_defs().iter().enumerate().map(|(p, s)| json!({"entry": s.0, "name": s.1.name, "explicit_number": s.1.number, "expected_reference_value": p})).collect::<Vec<_>>(),
+            "uses": self.all_uses().iter().map(|u| json!({"uid": u.uid, "kind": format!("{:?}", u.kind), "name": u.name, "expected": format!("{:?}", self.use_expect(u))})).collect::<Vec<_>>(),
+        })
+    }
+}
+
+// =============================================================================================
+// MSG
+
+#[derive(Debug, Clone, PartialEq)]
+enum MsgTgt { Script(String), Zero }
+
+#[derive(Debug, Clone)]
+struct MsgLayout {
+    game: Game,
+    /// script names in FILE order
+    scripts: Vec<String>,
+    meta_pos: usize,
+    /// (index, target) in SOURCE order
+    table: Vec<(u32, MsgTgt)>,
+    default: Option<MsgTgt>,
+    table_len: Option<u32>,
+    len_pat: &'static str,
+    flags: bool,
+    dup_script: bool,
+}
+
+const MSG_NAMES: [&str; 4] = ["mid", "zeta", "alpha", "beta"];
+fn msg_marker(name: &str) -> u32 { 0x40 + MSG_NAMES.iter().position(|n| *n == name).unwrap_or(60) as u32 }
+
+fn gen_msg(ch: &mut Chooser, game: Game, prof: &[u32]) -> MsgLayout {
+    let free = prof[0];
+    let (max_scripts, max_len) = (prof[1] as usize, prof[2] as usize);
+    let c = |f: u32| if free & f != 0 { 0 } else { 1 };
+    let ns = 1 + ch.pick_w(max_scripts, c(F_SHAPE));
+    let perm = permutation(ns, ch.pick_w(factorial(ns), c(F_SCRIPTS)));
+    let scripts: Vec<String> = perm.iter().map(|&i| MSG_NAMES[i].to_string()).collect();
+    let meta_pos = ch.pick_w(ns + 1, c(F_SCRIPTS));
+    let mut table = vec![];
+    for idx in 0..max_len {
+        // alternatives: hole, each script, literal 0, dangling name  (index 0 defaults to the first script)
+        let mut alts: Vec<Option<MsgTgt>> = vec![None];
+        for i in 0..ns { alts.push(Some(MsgTgt::Script(MSG_NAMES[i].to_string()))); }
+        alts.push(Some(MsgTgt::Zero));
+        alts.push(Some(MsgTgt::Script("nosuch".into())));
+        if idx == 0 { alts.swap(0, 1); }
+        if let Some(t) = alts[ch.pick_w(alts.len(), c(F_IDS))].clone() { table.push((idx as u32, t)); }
+    }
+    let mut dalts: Vec<Option<MsgTgt>> = vec![None];
+    for i in 0..ns { dalts.push(Some(MsgTgt::Script(MSG_NAMES[i].to_string()))); }
+    dalts.push(Some(MsgTgt::Zero));
+    dalts.push(Some(MsgTgt::Script("nosuch".into())));
+    let default = dalts[ch.pick_w(dalts.len(), c(F_NAMES))].clone();
+    let implicit = table.iter().map(|e| e.0 + 1).max().unwrap_or(0);
+    let (table_len, len_pat) = match ch.pick_w(4, c(F_USES)) {
+        0 => (None, "implicit"),
+        1 => (Some(implicit), "explicit-equal"),
+        2 => (Some(implicit + 2), "longer"),
+        _ => (Some(implicit.saturating_sub(1)), "shorter"),
+    };
+    let flags = ch.pick_w(2, c(F_USES)) == 1;
+    if ch.pick_w(2, c(F_USES)) == 1 { table.reverse(); }
+    let dup_script = ch.pick_w(2, c(F_USES)) == 1;
+    MsgLayout { game, scripts, meta_pos, table, default, table_len, len_pat, flags, dup_script }
+}
+
+impl MsgLayout {
+    fn implicit_len(&self) -> u32 { self.table.iter().map(|e| e.0 + 1).max().unwrap_or(0) }
+    fn dense(&self) -> Vec<MsgTgt> {
+        let len = self.table_len.unwrap_or(self.implicit_len());
+        (0..len).map(|i| self.table.iter().find(|e| e.0 == i).map(|e| e.1.clone()).or(self.default.clone()).unwrap_or(MsgTgt::Zero)).collect()
+    }
+    fn defined(&self, name: &str) -> bool { self.scripts.iter().any(|s| s == name) }
+}
+
+impl Layout for MsgLayout {
+    fn fam(&self) -> &'static str { "msg" }
+    fn tool(&self) -> Tool { Tool::new(Kind::Msg, self.game) }
+    fn mapfile(&self) -> Option<String> { None }
+    fn render(&self) -> String {
+        let tgt = |t: &MsgTgt| match t { MsgTgt::Script(n) => format!("\"{n}\""), MsgTgt::Zero => "0".to_string() };
+        let mut meta = String::from("meta {\n");
+        if let Some(l) = self.table_len { meta += &format!("    table_len: {l},\n"); }
+        meta += "    table: {\n";
+        for (i, t) in &self.table {
+            let fl = if self.flags { format!(", flags: {}", i + 1) } else { String::new() };
+            meta += &format!("        {i}: {{script: {}{fl}}},\n", tgt(t));
+        }
+        if let Some(d) = &self.default { meta += &format!("        default: {{script: {}}},\n", tgt(d)); }
+        meta += "    },\n}\n";
+        let mut s = String::new();
+        for (k, name) in self.scripts.iter().enumerate() {
+            if k == self.meta_pos { s += &meta; }
+            s += &format!("script {name} {{\n    ins_4(@blob=\"{:02x}000000\");\n}}\n", msg_marker(name));
+        }
+        if self.meta_pos >= self.scripts.len() { s += &meta; }
+        if self.dup_script { s += &format!("script {} {{\n    ins_4(@blob=\"7f000000\");\n}}\n", self.scripts[0]); }
+        s
+    }
+    fn verdict(&self) -> Verdict {
+        if self.dup_script { return Verdict::Error("conflict", "msg-script-name".into()); }
+        let short = self.table_len.map_or(false, |l| l < self.implicit_len());
+        let dense = self.dense();
+        let dangling_used = dense.iter().any(|t| matches!(t, MsgTgt::Script(n) if !self.defined(n)));
+        if dangling_used && !short {
+            let via_default = !self.table.iter().any(|e| matches!(&e.1, MsgTgt::Script(n) if !self.defined(n)));
+            return Verdict::Error("dangling", if via_default { "msg-table-default".into() } else { "msg-table".into() });
+        }
+        if short { return Verdict::Unspecified("table_len-shorter-than-entries".into()); }
+        let dangling_anywhere = self.table.iter().map(|e| &e.1).chain(self.default.iter()).any(|t| matches!(t, MsgTgt::Script(n) if !self.defined(n)));
+        if dangling_anywhere { return Verdict::Unspecified("dangling-default-never-used".into()); }
+        if dense.is_empty() { return Verdict::Unspecified("empty-table".into()); }
+        Verdict::Legal
+    }
+    fn nontrivial(&self) -> bool {
+        let dense = self.dense();
+        let names: Vec<&String> = dense.iter().filter_map(|t| if let MsgTgt::Script(n) = t { Some(n) } else { None }).collect();
+        let distinct: BTreeSet<&String> = names.iter().copied().collect();
+        self.scripts.len() >= 2 && (distinct.len() < names.len() || self.default.is_some() || (self.table.len() as u32) < self.implicit_len())
+    }
+    fn class(&self) -> String {
+        format!("scripts={}:entries={}:default={}:len={}", self.scripts.len(), self.table.len(), self.default.is_some(), self.len_pat)
+    }
+    fn check(&self, bytes: &[u8], corrupt: bool) -> Result<(u64, Vec<Mismatch>), String> {
+        let w = m2::walk_msg(bytes, self.game, false)?;
+        let mut c = Cmp::new();
+        let mut dense = self.dense();
+        if corrupt && self.scripts.len() >= 2 {
+            // shift one expectation: the last named entry is expected to point at the NEXT script name
+            if let Some(MsgTgt::Script(n)) = dense.iter_mut().rev().find(|t| matches!(t, MsgTgt::Script(_))) {
+                let k = self.scripts.iter().position(|s| s == n).unwrap();
+                *n = self.scripts[(k + 1) % self.scripts.len()].clone();
+            }
+        }
+        let class = format!("{}{}", self.len_pat, if self.default.is_some() { "+default" } else { "" });
+        if !c.eq(|| format!("C20:msg:table-len:{class}"), || "table length".into(), w.table.len(), dense.len()) { return Ok((c.n, c.mism)); }
+        for (i, (e, t)) in w.table.iter().zip(&dense).enumerate() {
+            let explicit = self.table.iter().any(|x| x.0 == i as u32);
+            let how = if explicit { "explicit" } else if self.default.is_some() { "default" } else { "hole" };
+            match t {
+                MsgTgt::Zero => { c.eq(|| format!("C20:msg:table-offset:{how}-zero"), || format!("table[{i}] ({how}) offset"), e.script_offset, 0); },
+                MsgTgt::Script(n) => {
+                    let sc = w.scripts.iter().find(|s| s.0 == e.script_offset as usize && e.script_offset != 0);
+                    let got = sc.and_then(|s| s.1.first()).filter(|i| i.opcode == 4).and_then(|i| dwords(&i.args).first().copied());
+                    c.eq(|| format!("C20:msg:table-offset:{how}-script"), || format!("table[{i}] ({how}, script '{n}') -> content marker of the script at offset {:#x}", e.script_offset), got, Some(msg_marker(n)));
+                },
+            }
+        }
+        Ok((c.n, c.mism))
+    }
+    fn describe(&self) -> Value {
+        json!({"scripts_in_file_order": self.scripts, "dense_table_expected": self.dense().iter().map(|t| format!("{t:?}")).collect::<Vec<_>>(),
+               "markers": self.scripts.iter().map(|s| json!({"name": s, "marker": msg_marker(s)})).collect::<Vec<_>>()})
+    }
+}
+
+// =============================================================================================
+// old ECL (TH06, TH07, TH08)
+
+#[derive(Debug, Clone, Copy, PartialEq, Eq)]
+enum EclUse { Call, ArgE, Plus1E, ArgTwo, ArgUntyped, Qual, ConstTop, ConstBottom, ConstLocal, ByteEnum, RawCall }
+const ECL_USE_KINDS: [EclUse; 11] = [EclUse::Call, EclUse::ArgE, EclUse::Plus1E, EclUse::ArgTwo, EclUse::ArgUntyped, EclUse::Qual,
+    EclUse::ConstTop, EclUse::ConstBottom, EclUse::ConstLocal, EclUse::ByteEnum, EclUse::RawCall];
+
+#[derive(Debug, Clone)]
+struct EclUseL { kind: EclUse, name: String, uid: u32 }
+#[derive(Debug, Clone)]
+struct EclSubL { name: String, marker: u32, params: u8, uses: Vec<EclUseL> }
+#[derive(Debug, Clone)]
+struct EclTlL { name: String, index: Option<i32>, pat: &'static str, marker: u32, target: String }
+#[derive(Debug, Clone)]
+struct EclLayout { game: Game, subs: Vec<EclSubL>, tls: Vec<EclTlL>, tl_pos: usize }
+
+const ECL_NAMES: [&str; 4] = ["mid", "zeta", "alpha", "beta"];
+
+fn gen_ecl(ch: &mut Chooser, game: Game, prof: &[u32]) -> EclLayout {
+    let free = prof[0];
+    let (max_subs, max_tl) = (prof[1] as usize, prof[2] as usize);
+    let c = |f: u32| if free & f != 0 { 0 } else { 1 };
+    let nsub = 1 + ch.pick_w(max_subs, c(F_SHAPE));
+    let tl_alts: Vec<usize> = if game == Game::Th06 { vec![1, 0] } else { [1usize, 0, 2, 3].iter().copied().filter(|&k| k <= max_tl).collect() };
+    let ntl = tl_alts[ch.pick_w(tl_alts.len(), c(F_SHAPE))];
+    let mut subs: Vec<EclSubL> = (0..nsub).map(|k| EclSubL { name: ECL_NAMES[k].to_string(), marker: 0x70 + k as u32, params: 0, uses: vec![] }).collect();
+    if nsub >= 2 && ch.pick_w(2, c(F_NAMES)) == 1 { subs[nsub - 1].name = subs[0].name.clone(); }
+    for s in subs.iter_mut() { s.params = ch.pick_w(4, c(F_SCRIPTS)) as u8; }
+    let mut tls = vec![];
+    for t in 0..ntl {
+        let (index, pat) = match ch.pick_w(4, c(F_IDS)) {
+            0 => (None, "implicit"),
+            1 => (Some(t as i32), "explicit-own-position"),
+            2 => (Some((ntl - 1 - t) as i32), "explicit-reversed"),
+            _ => (Some(t as i32 + 1), "explicit-shifted"),
+        };
+        let mut targets: Vec<String> = (0..nsub).map(|k| subs[(t + k) % nsub].name.clone()).collect();
+        targets.push("nosuch".into());
+        let target = targets[ch.pick_w(targets.len(), c(F_USES))].clone();
+        tls.push(EclTlL { name: format!("tl{t}"), index, pat, marker: 0x30 + t as u32, target });
+    }
+    let tl_pos = ch.pick_w(nsub + 1, c(F_SCRIPTS));
+    let mut names: Vec<String> = vec![];
+    for s in &subs { if !names.contains(&s.name) { names.push(s.name.clone()); } }
+    let mut uid = 0u32;
+    let host1 = ch.pick_w(nsub, c(F_USES));
+    for n in &names {
+        subs[host1].uses.push(EclUseL { kind: EclUse::Call, name: n.clone(), uid }); uid += 1;
+        subs[host1].uses.push(EclUseL { kind: EclUse::ArgE, name: n.clone(), uid }); uid += 1;
+    }
+    let k = ch.pick_w(1 + ECL_USE_KINDS.len(), c(F_USES));
+    if k > 0 {
+        let mut targets = names.clone();
+        targets.push("nosuch".into());
+        let t = ch.pick_w(targets.len(), c(F_USES));
+        let host2 = ch.pick_w(nsub, c(F_USES));
+        subs[host2].uses.push(EclUseL { kind: ECL_USE_KINDS[k - 1], name: targets[t].clone(), uid });
+    }
+    EclLayout { game, subs, tls, tl_pos }
+}
+
+impl EclLayout {
+    fn sub_index(&self, name: &str) -> Option<i64> { self.subs.iter().position(|s| s.name == name).map(|p| p as i64) }
+    fn call_opcode(&self) -> u16 { match self.game { Game::Th06 => 35, Game::Th07 => 41, _ => 52 } }
+    /// (statement text, expected opcode of the use instruction, dword index of the id or None = first BYTE)
+    fn use_text(&self, u: &EclUseL) -> (String, u16, Option<usize>) {
+        let n = &u.name;
+        let g = self.game;
+        let arg_e: u16 = match g { Game::Th06 => 108, Game::Th07 => 113, _ => 52 };
+        match u.kind {
+            EclUse::Call => {
+                let params = self.subs.iter().find(|s| &s.name == n).map_or(0, |s| s.params);
+                let args = ["", "5", "1.5", "5, 1.5"][params as usize];
+                (format!("{n}({args});"), self.call_opcode(), Some(0))
+            },
+            EclUse::ArgE => (format!("ins_{arg_e}({n});"), arg_e, Some(0)),
+            EclUse::Plus1E => (format!("ins_{arg_e}({n} + 1);"), arg_e, Some(0)),
+            EclUse::ArgTwo => match g {
+                Game::Th06 => (format!("ins_109({n}, 3);"), 109, Some(0)),
+                Game::Th07 => (format!("ins_108({n}, 3);"), 108, Some(0)),
+                _ => (format!("ins_135(3, {n});"), 135, Some(1)),
+            },
+            EclUse::ArgUntyped => (format!("ins_900({n});"), 900, Some(0)),
+            EclUse::Qual => (format!("ins_900(EclSub.{n});"), 900, Some(0)),
+            EclUse::ConstTop => (format!("ins_900(KT{});", u.uid), 900, Some(0)),
+            EclUse::ConstBottom => (format!("ins_900(KB{});", u.uid), 900, Some(0)),
+            EclUse::ConstLocal => (format!("const int KL{} = {n}; ins_900(KL{});", u.uid, u.uid), 900, Some(0)),
+            EclUse::ByteEnum => if g == Game::Th07 { (format!("ins_107({n});"), 107, None) } else { (format!("ins_{arg_e}({n});"), arg_e, Some(0)) },
+            EclUse::RawCall => if g == Game::Th06 { (format!("ins_35({n}, 0, 0.0);"), 35, Some(0)) } else { (format!("ins_{}({n});", self.call_opcode()), self.call_opcode(), Some(0)) },
+        }
+    }
+    fn use_expect(&self, u: &EclUseL) -> Option<i64> {
+        self.sub_index(&u.name).map(|v| if u.kind == EclUse::Plus1E { v + 1 } else { v })
+    }
+    /// M9: slot of every timeline, or None if the index set is invalid
+    fn tl_slots(&self) -> Option<Vec<usize>> {
+        let mut auto = 0usize;
+        let mut slots = vec![];
+        for t in &self.tls {
+            match t.index { Some(i) if i < 0 => return None, Some(i) => slots.push(i as usize), None => { slots.push(auto); auto += 1; } }
+        }
+        let set: BTreeSet<usize> = slots.iter().copied().collect();
+        if set.len() != slots.len() || set.iter().next_back().map_or(false, |&m| m + 1 != slots.len()) { return None; }
+        Some(slots)
+    }
+    fn all_uses(&self) -> Vec<&EclUseL> { self.subs.iter().flat_map(|s| s.uses.iter()).collect() }
+    fn tl_text(&self, t: &EclTlL) -> String {
+        let num = t.index.map(|i| format!("{i} ")).unwrap_or_default();
+        let spawn = if self.game == Game::Th08 { format!("ins_0({}, 0.0, 0.0, 0, 0, 0);", t.target) } else { format!("ins_0({}, 0.0, 0.0, 0.0, 0, 0, 0);", t.target) };
+        format!("script {num}{} {{\n    ins_900({}, 0);\n    {spawn}\n}}\n", t.name, t.marker)
+    }
+}
+
+impl Layout for EclLayout {
+    fn fam(&self) -> &'static str { "ecl" }
+    fn tool(&self) -> Tool { Tool::new(Kind::Ecl, self.game) }
+    fn mapfile(&self) -> Option<String> { Some("!eclmap\n!ins_signatures\n900 S\n901 SS\n!timeline_ins_signatures\n900 SS\n".into()) }
+    fn render(&self) -> String {
+        let mut s = String::new();
+        for u in self.all_uses() { if u.kind == EclUse::ConstTop { s += &format!("const int KT{} = {};\n", u.uid, u.name); } }
+        for (k, sub) in self.subs.iter().enumerate() {
+            if k == self.tl_pos { for t in &self.tls { s += &self.tl_text(t); } }
+            let params = ["", "int a", "float x", "int a, float x"][sub.params as usize];
+            s += &format!("void {}({params}) {{\n    ins_901({}, 0);\n", sub.name, sub.marker);
+            for u in &sub.uses { s += &format!("    ins_901({}, 1);\n    {}\n", u.uid, self.use_text(u).0); }
+            s += "}\n";
+        }
+        if self.tl_pos >= self.subs.len() { for t in &self.tls { s += &self.tl_text(t); } }
+        for u in self.all_uses() { if u.kind == EclUse::ConstBottom { s += &format!("const int KB{} = {};\n", u.uid, u.name); } }
+        s
+    }
+    fn verdict(&self) -> Verdict {
+        for (i, a) in self.subs.iter().enumerate() {
+            if self.subs.iter().skip(i + 1).any(|b| b.name == a.name) { return Verdict::Error("conflict", "ecl-sub-name".into()); }
+        }
+        for u in self.all_uses() { if self.use_expect(u).is_none() { return Verdict::Error("dangling", format!("ecl-{:?}", u.kind)); } }
+        for t in &self.tls { if self.sub_index(&t.target).is_none() { return Verdict::Error("dangling", "ecl-timeline-arg".into()); } }
+        if self.tl_slots().is_none() { return Verdict::Error("invalid", "ecl-timeline-index-set".into()); }
+        Verdict::Legal
+    }
+    fn nontrivial(&self) -> bool {
+        let explicit = self.tls.iter().any(|t| t.index.is_some());
+        let mut names: Vec<&str> = self.subs.iter().map(|s| s.name.as_str()).collect();
+        let total = names.len();
+        names.sort(); names.dedup();
+        let shared_ref = self.all_uses().len() > 2 * names.len();
+        (self.subs.len() >= 2 || self.tls.len() >= 2) && (explicit || names.len() < total || shared_ref)
+    }
+    fn class(&self) -> String {
+        let mut pats: Vec<&str> = self.tls.iter().map(|t| t.pat).collect();
+        pats.sort(); pats.dedup();
+        format!("subs={}:timelines={}:{}", self.subs.len(), self.tls.len(), pats.join("+"))
+    }
+    fn check(&self, bytes: &[u8], corrupt: bool) -> Result<(u64, Vec<Mismatch>), String> {
+        let w = m2::walk_ecl(bytes, self.game)?;
+        let mut c = Cmp::new();
+        if !c.eq(|| "C20:ecl:sub-count".into(), || "number of subs".into(), w.subs.len(), self.subs.len()) { return Ok((c.n, c.mism)); }
+        let marker_of = |instrs: &Vec<m2::Instr>, op: u16| instrs.first().filter(|i| i.opcode == op).and_then(|i| dwords(&i.args).first().copied());
+        for (p, (fs, ls)) in w.subs.iter().zip(&self.subs).enumerate() {
+            c.eq(|| "C20:ecl:sub-order".into(), || format!("sub at file position {p} ('{}') content marker", ls.name), marker_of(fs, 901), Some(ls.marker));
+        }
+        let last_uid = self.all_uses().iter().map(|u| u.uid).max();
+        for (fs, ls) in w.subs.iter().zip(&self.subs) {
+            let segs = segments(fs, |i| if i.opcode == 901 { let d = dwords(&i.args); if d.get(1) == Some(&1) { d.first().copied() } else { None } } else { None });
+            for u in &ls.uses {
+                let (text, opcode, idx) = self.use_text(u);
+                let Some(ins) = segs.get(&u.uid) else { c.fail(format!("C20:ecl:use-site-missing:{:?}", u.kind), format!("sub '{}': no instruction for use {} `{text}`", ls.name, u.uid)); continue };
+                let mut exp = self.use_expect(u).unwrap_or(-999);
+                if corrupt && Some(u.uid) == last_uid && self.subs.len() >= 2 { exp += 1; }
+                let got = match idx { Some(k) => dwords(&ins.args).get(k).map(|&x| x as i32 as i64), None => ins.args.first().map(|&b| b as i8 as i64) };
+                let ok = c.eq(|| format!("C20:ecl:arg:{:?}", u.kind), || format!("sub '{}' use {} `{text}` (opcode {}) sub id", ls.name, u.uid, ins.opcode), (ins.opcode, got), (opcode, Some(exp)));
+                if ok && !corrupt {
+                    let v = got.unwrap() - (u.kind == EclUse::Plus1E) as i64;
+                    let want = self.subs.iter().find(|s| s.name == u.name).map(|s| s.marker);
+                    let got_marker = usize::try_from(v).ok().and_then(|v| w.subs.get(v)).and_then(|s| marker_of(s, 901));
+                    c.eq(|| format!("C20:ecl:arg-vs-file-sub-order:{:?}", u.kind), || format!("content marker of the sub at file position {v} (argument naming '{}')", u.name), got_marker, want);
+                }
+            }
+        }
+        // timelines
+        if !c.eq(|| "C20:ecl:timeline-count".into(), || "number of timelines".into(), w.timelines.len(), self.tls.len()) { return Ok((c.n, c.mism)); }
+        let slots = self.tl_slots().unwrap_or_default();
+        for (t, &slot) in self.tls.iter().zip(&slots) {
+            let ft = &w.timelines[slot];
+            c.eq(|| format!("C20:ecl:timeline-slot:{}", t.pat), || format!("timeline '{}' ({}) expected in slot {slot}: content marker there", t.name, t.pat), marker_of(ft, 900), Some(t.marker));
+            let exp = self.sub_index(&t.target).unwrap_or(-999);
+            let spawn = ft.iter().find(|i| i.opcode == 0);
+            let got = spawn.and_then(|i| if self.game == Game::Th08 { dwords(&i.args).first().map(|&x| x as i32 as i64) } else { i.extra_arg.map(|x| x as i64) });
+            let ok = c.eq(|| "C20:ecl:timeline-arg".into(), || format!("timeline '{}' ins_0({}, ...) sub id", t.name, t.target), got, Some(exp));
+            if ok {
+                let want = self.subs.iter().find(|s| s.name == t.target).map(|s| s.marker);
+                let got_marker = usize::try_from(got.unwrap()).ok().and_then(|v| w.subs.get(v)).and_then(|s| marker_of(s, 901));
+                c.eq(|| "C20:ecl:timeline-arg-vs-file-sub-order".into(), || format!("content marker of the sub the timeline '{}' refers to", t.name), got_marker, want);
+            }
+        }
+        Ok((c.n, c.mism))
+    }
+    fn describe(&self) -> Value {
+        json!({
+            "subs": self.subs.iter().enumerate().map(|(p, s)| json!({"name": s.name, "expected_id": p, "marker": s.marker})).collect::<Vec<_>>(),
+            "timelines": self.tls.iter().map(|t| json!({"name": t.name, "index": t.index, "target": t.target})).collect::<Vec<_>>(),
+            "timeline_slots_expected": format!("{:?}", self.tl_slots()),
+            "uses": self.all_uses().iter().map(|u| json!({"uid": u.uid, "kind": format!("{:?}", u.kind), "name": u.name, "expected": self.use_expect(u)})).collect::<Vec<_>>(),
+        })
+    }
+}
+
+// =============================================================================================
+// STD
+
+#[derive(Debug, Clone)]
+struct StdLayout { game: Game, objects: Vec<String>, instances: Vec<String> }
+
+const STD_NAMES: [&str; 4] = ["mid", "zeta", "alpha", "beta"];
+
+fn gen_std(ch: &mut Chooser, game: Game, prof: &[u32]) -> StdLayout {
+    let free = prof[0];
+    let (max_obj, max_inst) = (prof[1] as usize, prof[2] as usize);
+    let c = |f: u32| if free & f != 0 { 0 } else { 1 };
+    let no = 1 + ch.pick_w(max_obj, c(F_SHAPE));
+    let perm = permutation(no, ch.pick_w(factorial(no), c(F_NAMES)));
+    let objects: Vec<String> = perm.iter().map(|&i| STD_NAMES[i].to_string()).collect();
+    let ni_alts: Vec<usize> = [1usize, 0, 2, 3, 4].iter().copied().filter(|&k| k <= max_inst).collect();
+    let ni = ni_alts[ch.pick_w(ni_alts.len(), c(F_SHAPE))];
+    let mut instances = vec![];
+    for k in 0..ni {
+        let mut alts: Vec<String> = (0..no).map(|j| objects[(k + j) % no].clone()).collect();
+        alts.push("nosuch".into());
+        instances.push(alts[ch.pick_w(alts.len(), c(F_USES))].clone());
+    }
+    StdLayout { game, objects, instances }
+}
+
+impl StdLayout {
+    fn layer(&self, p: usize) -> u16 { 11 + p as u16 }
+}
+
+impl Layout for StdLayout {
+    fn fam(&self) -> &'static str { "std" }
+    fn tool(&self) -> Tool { Tool::new(Kind::Std, self.game) }
+    fn mapfile(&self) -> Option<String> { None }
+    fn render(&self) -> String {
+        let mut s = String::from("meta {\n    unknown: 0,\n");
+        if m2::std_is_06_format(self.game) {
+            s += "    stage_name: \"dm\",\n    bgm: [\n        {path: \"a.mid\", name: \"a\"},\n        {path: \"b.mid\", name: \"b\"},\n        {path: \" \", name: \" \"},\n        {path: \" \", name: \" \"},\n    ],\n";
+        } else { s += "    anm_path: \"stage01.anm\",\n"; }
+        s += "    objects: {\n";
+        for (p, o) in self.objects.iter().enumerate() {
+            s += &format!("        {o}: {{layer: {}, pos: [0.0, 0.0, 0.0], size: [1.0, 1.0, 1.0], quads: [rect {{anm_script: {p}, pos: [0.0, 0.0, 0.0], size: [1.0, 1.0]}}]}},\n", self.layer(p));
+        }
+        s += "    },\n    instances: [\n";
+        for (k, i) in self.instances.iter().enumerate() { s += &format!("        {i} {{pos: [{}.0, 0.0, 0.0]}},\n", k + 1); }
+        s += "    ],\n}\nscript main {}\n";
+        s
+    }
+    fn verdict(&self) -> Verdict {
+        if self.instances.iter().any(|i| !self.objects.contains(i)) { return Verdict::Error("dangling", "std-instance-object".into()); }
+        Verdict::Legal
+    }
+    fn nontrivial(&self) -> bool {
+        let distinct: BTreeSet<&String> = self.instances.iter().collect();
+        self.objects.len() >= 2 && !self.instances.is_empty() && (distinct.len() < self.instances.len() || self.instances.len() >= 2)
+    }
+    fn class(&self) -> String { format!("objects={}:instances={}", self.objects.len(), self.instances.len()) }
+    fn check(&self, bytes: &[u8], corrupt: bool) -> Result<(u64, Vec<Mismatch>), String> {
+        let w = m2::walk_std(bytes, self.game)?;
+        let mut c = Cmp::new();
+        if !c.eq(|| "C20:std:object-count".into(), || "number of objects".into(), w.objects.len(), self.objects.len()) { return Ok((c.n, c.mism)); }
+        for (p, o) in w.objects.iter().enumerate() {
+            c.eq(|| "C20:std:object-order".into(), || format!("object at table position {p} ('{}') content marker (layer)", self.objects[p]), o.layer, self.layer(p));
+            c.eq(|| "C20:std:object-id-field".into(), || format!("object at table position {p} id field"), o.id as usize, p);
+        }
+        if !c.eq(|| "C20:std:instance-count".into(), || "number of instances".into(), w.instances.len(), self.instances.len()) { return Ok((c.n, c.mism)); }
+        for (k, (fi, name)) in w.instances.iter().zip(&self.instances).enumerate() {
+            let mut exp = self.objects.iter().position(|o| o == name).map(|p| p as i64).unwrap_or(-999);
+            if corrupt && k + 1 == self.instances.len() && self.objects.len() >= 2 { exp += 1; }
+            let ok = c.eq(|| "C20:std:instance-object".into(), || format!("instance {k} (object '{name}') object id"), fi.object_id as i64, exp);
+            c.eq(|| "C20:std:instance-order".into(), || format!("instance {k} position marker"), fi.pos[0], (k + 1) as f32);
+            if ok {
+                let got_layer = w.objects.get(fi.object_id as usize).map(|o| o.layer);
+                c.eq(|| "C20:std:instance-vs-file-object-table".into(), || format!("content marker of the object instance {k} ('{name}') refers to"), got_layer, Some(self.layer(exp as usize)));
+            }
+        }
+        Ok((c.n, c.mism))
+    }
+    fn describe(&self) -> Value {
+        json!({"objects_in_file_order": self.objects,
+               "instances": self.instances.iter().map(|i| json!({"object": i, "expected_object_id": self.objects.iter().position(|o| o == i)})).collect::<Vec<_>>()})
+    }
+}
+
+// =============================================================================================
+// evaluation of one case
+
+struct Eval {
+    src: String,
+    outcome: String,
+    cmps: u64,
+    nontrivial: bool,
+    /// (signature, message) — all mismatches of this case
+    mismatches: Vec<Mismatch>,
+    diag_head: String,
+}
+
+fn evaluate(l: &dyn Layout, corrupt: bool) -> Eval {
+    let src = l.render();
+    let map = l.mapfile();
+    let mut opts = CompileOpts::default();
+    if let Some(m) = &map { opts.mapfiles.push(m.as_str()); }
+    let out = drive::compile(l.tool(), src.as_bytes(), &opts);
+    let verdict = l.verdict();
+    let diag_head: String = out.diag.lines().filter(|x| x.starts_with("error") || x.starts_with("bug") || x.starts_with("warning")).take(4).collect::<Vec<_>>().join(" | ");
+    let mut ev = Eval { src, outcome: String::new(), cmps: 0, nontrivial: l.nontrivial(), mismatches: vec![], diag_head };
+    if let Some(p) = &out.panic {
+        ev.outcome = "panic".into();
+        ev.mismatches.push(Mismatch { sig: format!("C20:{}", p.signature()), msg: format!("compiler panicked: {}", p.text) });
+        return ev;
+    }
+    let compiled = out.bytes.is_some();
+    let has_err = drive::has_error(&out.diag);
+    match verdict {
+        Verdict::Legal => match &out.bytes {
+            None => {
+                ev.outcome = "legal-but-rejected".into();
+                ev.mismatches.push(Mismatch { sig: format!("C20:legal-rejected:{}:{}", l.fam(), l.class()), msg: format!("M9 considers the layout legal but the compiler rejected it: {}", ev.diag_head) });
+            },
+            Some(bytes) => match catch(|| l.check(bytes, corrupt)) {
+                Ok(Ok((n, mism))) => {
+                    ev.cmps = n;
+                    ev.outcome = if mism.is_empty() { format!("ok:{}", l.fam()) } else { "id-mismatch".into() };
+                    ev.mismatches = mism;
+                },
+                Ok(Err(e)) => {
+                    ev.outcome = "walker-error".into();
+                    ev.mismatches.push(Mismatch { sig: format!("C20:walker-error:{}", l.fam()), msg: format!("M2 walker cannot parse the written file: {e}") });
+                },
+                Err(p) => {
+                    ev.outcome = "checker-panic".into();
+                    ev.mismatches.push(Mismatch { sig: format!("C20:machinery:checker-panic:{}", l.fam()), msg: p.text });
+                },
+            },
+        },
+        Verdict::Error(class, kind) => {
+            ev.cmps = 1;
+            if compiled || !has_err {
+                ev.outcome = format!("{class}-accepted");
+                ev.mismatches.push(Mismatch { sig: format!("C20:{class}-accepted:{kind}"), msg: format!("M9: {class} ({kind}) must be reported as an error; compiled={compiled} error_diagnostic={has_err}: {}", ev.diag_head) });
+            } else {
+                ev.outcome = format!("error-expected:{class}");
+            }
+        },
+        Verdict::Unspecified(k) => {
+            ev.outcome = format!("unspecified:{k}:{}", if compiled { "compiled" } else { "rejected" });
+            if !compiled && !has_err {
+                ev.mismatches.push(Mismatch { sig: format!("C20:silent-failure:{}", l.fam()), msg: "no output and no error diagnostic".into() });
+            }
+        },
+    }
+    ev
+}
+
+fn hash2(tool: Tool, s: &str) -> (u64, u64) {
+    let mut a = std::collections::hash_map::DefaultHasher::new();
+    (tool.name(), s).hash(&mut a);
+    let mut b = std::collections::hash_map::DefaultHasher::new();
+    (0x9e3779b97f4a7c15u64, s, tool.name()).hash(&mut b);
+    (a.finish(), b.finish())
+}
+
+fn job_json(job: &Job) -> Value { json!({"family": job.fam, "game": job.game.as_str(), "profile": job.prof, "choices": job.choices}) }
+
+fn job_from_json(v: &Value) -> Option<Job> {
+    let fam = match v["family"].as_str()? { "anm" => "anm", "msg" => "msg", "ecl" => "ecl", "std" => "std", _ => return None };
+    let game = v["game"].as_str()?.parse::<Game>().ok()?;
+    let prof = v["profile"].as_array()?.iter().map(|x| x.as_u64().unwrap_or(0) as u32).collect();
+    let choices = v["choices"].as_array()?.iter().map(|x| x.as_u64().unwrap_or(0) as u32).collect();
+    Some(Job { fam, game, prof, choices })
+}
+
+// =============================================================================================
+// plans
+
+struct Plan { label: &'static str, fam: &'static str, games: Vec<&'static str>, prof: Vec<u32>, bound: u32, max_cases: u64 }
+
+fn plans(thorough: bool) -> Vec<Plan> {
+    let t = thorough;
+    // ANM profile: [free mask, max entries, max sprites/entry, max sprites total, max scripts]
+    // MSG profile: [free mask, max scripts, max table index count];  ECL: [free, max subs, max timelines];  STD: [free, max objects, max instances]
+    let anm_all = vec!["th12", "th06", "th07", "th08", "th10", "th17"];
+    vec![
+        // every id pattern for every sprite (full product) over every shape; everything else default
+        Plan { label: "anm sprite ids: shape x id pattern (full product)", fam: "anm", games: if t { anm_all.clone() } else { vec!["th12", "th06", "th08"] },
+               prof: vec![F_SHAPE | F_IDS, 3, 3, if t { 4 } else { 3 }, 2], bound: 0, max_cases: 3_000_000 },
+        // shared names: every name assignment x id patterns (2 deviations elsewhere)
+        Plan { label: "anm shared/clashing names (full product) + 2 deviations", fam: "anm", games: if t { anm_all.clone() } else { vec!["th12", "th07"] },
+               prof: vec![F_NAMES, 3, 3, if t { 4 } else { 3 }, 3], bound: if t { 3 } else { 2 }, max_cases: 3_000_000 },
+        // scripts and use sites: full product of script names/numbers and use kind/target/host
+        Plan { label: "anm scripts x use sites (full product) + 1 deviation", fam: "anm", games: if t { anm_all.clone() } else { vec!["th12", "th10", "th17", "th06"] },
+               prof: vec![F_SCRIPTS | F_USES, 3, 2, 3, 3], bound: if t { 2 } else { 1 }, max_cases: 3_000_000 },
+        // everything costed: deviation-bounded over the whole generator
+        Plan { label: "anm all choice points, deviation-bounded", fam: "anm", games: if t { anm_all.clone() } else { vec!["th12"] },
+               prof: vec![0, 3, 3, 4, 3], bound: if t { 4 } else { 3 }, max_cases: 3_000_000 },
+        Plan { label: "msg table contents x default (full product) + deviations", fam: "msg", games: if t { vec!["th06", "th08", "th09", "th12", "th17"] } else { vec!["th06", "th09", "th12"] },
+               prof: vec![F_IDS | F_NAMES, if t { 4 } else { 3 }, if t { 5 } else { 4 }], bound: if t { 2 } else { 1 }, max_cases: 3_000_000 },
+        Plan { label: "msg shape/order/table_len (full product) + deviations", fam: "msg", games: vec!["th06", "th09"],
+               prof: vec![F_SHAPE | F_SCRIPTS | F_USES, 4, 5], bound: if t { 3 } else { 2 }, max_cases: 3_000_000 },
+        Plan { label: "ecl subs x timelines x uses (full product of shape/index/use) + deviations", fam: "ecl", games: vec!["th06", "th07", "th08"],
+               prof: vec![F_SHAPE | F_IDS | F_USES, if t { 4 } else { 3 }, 3], bound: if t { 2 } else { 1 }, max_cases: 3_000_000 },
+        Plan { label: "ecl all choice points, deviation-bounded", fam: "ecl", games: vec!["th06", "th07", "th08"],
+               prof: vec![0, 4, 3], bound: if t { 4 } else { 3 }, max_cases: 3_000_000 },
+        Plan { label: "std objects x name order x instances (full product)", fam: "std", games: if t { vec!["th06", "th08", "th095", "th12"] } else { vec!["th06", "th12"] },
+               prof: vec![F_SHAPE | F_NAMES | F_USES, 4, if t { 4 } else { 3 }], bound: 0, max_cases: 3_000_000 },
+    ]
+}
+
+// =============================================================================================
+// run / replay
+
+struct CaseOut { hash: (u64, u64), outcome: String, cmps: u64, nontrivial: bool, fails: Vec<(String, usize, Value)> }
+
+pub fn run(tier: &str) -> Report {
+    let mut rep = Report::new("C20", tier, "model_checking");
+    let thorough = rep.is_thorough();
+    let corrupt = std::env::var("VERIF_C20_SELFTEST_CORRUPT").map_or(false, |v| v == "1");
+    let deadline = rep.deadline();
+    rep.rule = "a layout with >= 2 named things of the same kind (sprites+scripts / MSG scripts / subs or timelines / STD objects) and >= 1 explicit id, explicit \
+                script or timeline number, default/hole in a MSG table, or a name that is shared (defined or referenced more than once)".into();
+
+    // 1. enumerate choice vectors
+    let mut jobs: Vec<Job> = vec![];
+    let mut plan_stats = vec![];
+    let mut any_capped = false;
+    for plan in plans(thorough) {
+        for gname in &plan.games {
+            let game = gm(gname);
+            let before = jobs.len();
+            let fam = plan.fam;
+            let prof = plan.prof.clone();
+            let gen = |ch: &mut Chooser| { let job = Job { fam, game, prof: prof.clone(), choices: vec![] }; let _ = job; match fam {
+                "anm" => { gen_anm(ch, game, &prof); }, "msg" => { gen_msg(ch, game, &prof); }, "ecl" => { gen_ecl(ch, game, &prof); }, _ => { gen_std(ch, game, &prof); } } };
+            let mut local: Vec<Job> = vec![];
+            let st = explore_dfs(plan.bound, plan.max_cases, &gen, &mut |choices, _| {
+                local.push(Job { fam, game, prof: plan.prof.clone(), choices: choices.to_vec() });
+            });
+            if st.capped { any_capped = true; }
+            jobs.extend(local);
+            plan_stats.push(json!({"plan": plan.label, "game": gname, "deviation_bound": plan.bound, "generated": jobs.len() - before, "capped": st.capped}));
+        }
+    }
+    rep.transitions = jobs.len() as u64;
+
+    // 2. distinct source texts
+    let hashes = par_map(&jobs, Some(deadline), |_, job| { let l = build(job); hash2(l.tool(), &l.render()) });
+    let mut seen: HashSet<(u64, u64)> = HashSet::new();
+    let mut distinct: Vec<Job> = vec![];
+    let mut not_hashed = 0u64;
+    for (job, h) in jobs.iter().zip(hashes) {
+        match h { Some(h) => if seen.insert(h) { distinct.push(job.clone()); }, None => not_hashed += 1 }
+    }
+    drop(jobs);
+    rep.states = distinct.len() as u64;
+
+    // 3. compile + compare
+    let results = par_map(&distinct, Some(deadline), |_, job| {
+        let l = build(job);
+        let ev = evaluate(&*l, corrupt);
+        let fails: Vec<(String, usize, Value)> = if ev.mismatches.is_empty() { vec![] } else {
+            let mut by_sig: BTreeMap<String, Vec<String>> = BTreeMap::new();
+            for m in &ev.mismatches { by_sig.entry(m.sig.clone()).or_default().push(m.msg.clone()); }
+            by_sig.into_iter().map(|(sig, msgs)| {
+                let detail = json!({"job": job_json(job), "tool": l.tool().name(), "source": ev.src, "mapfile": l.mapfile(), "verdict": format!("{:?}", l.verdict()),
+                                    "model": l.describe(), "mismatches": msgs, "diagnostics": ev.diag_head, "corrupt_selftest": corrupt});
+                (sig, ev.src.len(), detail)
+            }).collect()
+        };
+        CaseOut { hash: (0, 0), outcome: ev.outcome, cmps: ev.cmps, nontrivial: ev.nontrivial, fails }
+    });
+    let mut best: BTreeMap<String, (usize, Value)> = BTreeMap::new();
+    let mut counts: BTreeMap<String, u64> = BTreeMap::new();
+    let mut not_run = not_hashed;
+    let mut per_family: BTreeMap<String, u64> = BTreeMap::new();
+    for (job, r) in distinct.iter().zip(results) {
+        let Some(r) = r else { not_run += 1; continue };
+        rep.evaluations += 1;
+        rep.traces_validated += r.cmps;
+        if r.nontrivial { rep.nontrivial += 1; }
+        rep.outcome(&r.outcome);
+        *per_family.entry(format!("{}/{}", job.fam, job.game.as_str())).or_insert(0) += 1;
+        if rep.samples.len() < 8 && (rep.evaluations % 9973 == 1) {
+            let l = build(job);
+            rep.sample(json!({"tool": l.tool().name(), "source": l.render(), "verdict": format!("{:?}", l.verdict()), "outcome": r.outcome}));
+        }
+        for (sig, len, detail) in r.fails {
+            *counts.entry(sig.clone()).or_insert(0) += 1;
+            match best.get(&sig) { Some((l, _)) if *l <= len => {}, _ => { best.insert(sig, (len, detail)); } }
+        }
+    }
+    for (sig, (_, detail)) in best {
+        if sig.starts_with("C20:machinery:") { rep.machinery_errors.push(format!("{sig}: {}", detail["mismatches"])); continue; }
+        rep.fail(sig, detail);
+    }
+    rep.extra.insert("failure_counts".into(), json!(counts));
+    rep.extra.insert("plans".into(), json!(plan_stats));
+    rep.extra.insert("evaluations_per_family".into(), json!(per_family));
+    if not_run > 0 { rep.cap_hit = Some(format!("wall clock: {not_run} generated layouts not evaluated")); }
+    else if any_capped { rep.cap_hit = Some("a plan hit its max_cases cap".into()); }
+    rep.exhaustive = not_run == 0 && !any_capped;
+    rep.bound_completed = format!("all plans listed in coverage.plans (tier {tier}): every choice vector within each plan's deviation bound; free choice points are full products");
+    rep.assumptions = vec![
+        "M2 walkers parse the written containers correctly (cross-checked against truth's readers by `m2-selftest`)".into(),
+        "layouts M9 cannot classify from the property text or the repository's tests (ambiguous sprite/script name in an untyped context, negative ids, table_len shorter than the table, never-used dangling default, same sprite name twice in one entry with equal ids) are 'unspecified': only absence of panics is required".into(),
+        "ANM script references are positions in file order over all entries (tests/integration/anm_consts.rs::script_ids); the id field written for `script N name` is not asserted".into(),
+    ];
+    rep.explanation = "E-DFS over layout choice vectors of four generators (ANM entries/sprites/scripts/use sites, MSG tables, old-ECL subs/timelines, STD objects/instances); \
+        each distinct source text is compiled in process by the real compiler and the written file is parsed by the independent M2 walkers; sprite id fields, script/sub/timeline/object \
+        order (identified by content markers), MSG offsets and every argument dword naming a sprite/script/sub are compared with M9; conflicting, cyclic or dangling names must produce an error diagnostic".into();
+    if corrupt { rep.explanation += " [VERIF_C20_SELFTEST_CORRUPT=1: one expected id per layout is shifted by one; violations are expected]"; }
+    rep
+}
+
+pub fn replay(detail: &Value) -> i32 {
+    let Some(job) = job_from_json(&detail["job"]) else { println!("C20 replay: detail has no usable job descriptor"); return 2 };
+    let corrupt = detail["corrupt_selftest"].as_bool().unwrap_or(false) || std::env::var("VERIF_C20_SELFTEST_CORRUPT").map_or(false, |v| v == "1");
+    let l = build(&job);
+    let src = l.render();
+    println!("C20 replay: {} layout {}", l.tool().name(), job_json(&job));
+    if let Some(stored) = detail["source"].as_str() {
+        if stored != src { println!("NOTE: regenerated source differs from the stored one (generator changed?); using the regenerated layout.\n--- stored ---\n{stored}"); }
+    }
+    println!("--- source ---\n{src}--- mapfile ---\n{}", l.mapfile().unwrap_or_default());
+    println!("--- M9 ---\nverdict: {:?}\n{}", l.verdict(), serde_json::to_string_pretty(&l.describe()).unwrap_or_default());
+    let ev = evaluate(&*l, corrupt);
+    println!("--- observed ---\noutcome: {}\ncomparisons: {}\ndiagnostics: {}", ev.outcome, ev.cmps, ev.diag_head);
+    for m in &ev.mismatches { println!("MISMATCH [{}] {}", m.sig, m.msg); }
+    if ev.mismatches.is_empty() { println!("no mismatch: passes now"); 0 } else { 1 }
+}
